@@ -9,6 +9,9 @@ CLAIMED = {
  "C06": ("route table extraction from main.main SSA + reachability + guard-fact dataflow per (route, protected sink); reviewed mask table; CSRF / deny-list / CA-separation dominance rules",
          "For every service-mux route extracted at check time and every protected sink reachable from it, the credential fact required by the route's kind dominates the sink on all paths; admission masks equal a reviewed reference; every success return of checkAuth is preceded by the CSRF test; keymaster-signed chains pass the deny list and the role-CA separation. Structural, all paths, current source.",
          "Sink table and route-kind table are part of the trusted base (keyed by resolved objects, one reason each); new routes default to the strictest kind. Trusts crypto/tls and net/http.", "DESIGN.md §3 C06"),
+ "C05": ("upgrade-site analysis: level-operand shape, verifier-success dominance with role/provenance of the user operand, subject binding of the re-signed cookie, consumption of one-time values",
+         "Every site that raises or creates a session level: the level operand is the authenticated level OR constant bits; each added bit is dominated on all paths by its verifier's success edge applied to the authenticated user (or a record bound to that user); the re-signed cookie's subject is compared with that user; one-time values are consumed before the upgrade and expired ones refused. Structural, all paths, current source; not an enumeration of histories.",
+         "Trusts the verifier libraries (u2f, webauthn, otp, vip, okta) and go-jose. Verifier table keyed by factor bit is part of the checker.", "DESIGN.md §3 C05"),
  "C08": ("per-accessor operand binding (own user / equality / admin fact) by guard-fact dataflow followed through parameters into callers; structural check of admin predicates and cache",
          "Every profile/user-store accessor reachable from a service route has its user operand bound to the authenticated user, compared equal to it, or guarded by the administrator fact of its operation class, on every path; IsAdminUserAndU2F, IsAdminUser, the admin cache and automation-certificate minting have the required shape.",
          "Trusts go/types+go/ssa; directory content is out of scope. Operation classes (read / write / user administration) are a reviewed table keyed by handler.", "DESIGN.md §3 C08"),
